@@ -21,7 +21,9 @@ import PcbV.Gen.CasTypes
   or the original one (`< 255`, defect D10); `skipBody : Bool` selects the repaired `_search`
   (plays past the records of a skipped file, pending fix C29-skip-body) or the original one;
   `rel : Bool` selects the repaired end-of-tape handling of `_search` (closes the stream, pending fix
-  C29-timeout-release) or the original one (stream stays open: every later OPEN is File already open).
+  C29-timeout-release) or the original one (stream stays open: every later OPEN is File already open);
+  `drain : Bool` (closeStreamWith) selects the repaired `close` (a file open for reading is played to
+  its end, pending fix C29-close-drain) or the original one.
 -/
 namespace PcbV.Cassette
 open PcbV
@@ -166,24 +168,6 @@ def openWrite (s : St) (name : Bytes) (ftype seg offs length : Nat) : R St :=
 /-- `CassetteStream.write(c)` -/
 def write (fixed : Bool) (s : St) (c : Bytes) : St := flush fixed { s with buf := s.buf ++ c }
 
-/-- `_close_record_buffer` + `close` -/
-def closeStream (fixed : Bool) (s : St) : St :=
-  if !s.isOpen then s
-  else
-    let s1 :=
-      if s.writing then
-        let s2 := { flush fixed s with complete := true }
-        if isBin s2.ftype then putRecord s2 s2.buf
-        else if s2.buf.isEmpty then s2
-        else putRecord s2 (s2.buf.length :: s2.buf)
-      else s
-    { s1 with buf := [], isOpen := false, writing := false }
-
-/-- closing the BASIC file: `CASTextFile.close` writes NUL first when open for output -/
-def closeFile (fixed : Bool) (s : St) : St :=
-  if s.isOpen && s.writing && isText s.ftype then closeStream fixed (write fixed s [0])
-  else closeStream fixed s
-
 /-! ### reading -/
 
 /-- `_fill_record_buffer` applied to the next record: new buffer and buffer_complete -/
@@ -227,6 +211,35 @@ def read (s : St) (n : Option Nat) : R (Bytes × St) :=
   | .ok (x, b, k, left) =>
     .ok (x, { s with buf := b, complete := k,
                      done := s.done ++ s.ahead.take (s.ahead.length - left.length), ahead := left })
+
+/-- `_close_record_buffer` + `close`.  `drain = true` is the repaired `close` (pending fix
+    C29-close-drain): a file open for reading is first played to its end (`self.read()`), so that the
+    unread records of a partly read file cannot be taken for file headers by the next search;
+    `drain = false` is the original code, which leaves the head where the last read stopped. -/
+def closeStreamWith (drain fixed : Bool) (s : St) : St :=
+  if !s.isOpen then s
+  else
+    let s1 :=
+      if s.writing then
+        let s2 := { flush fixed s with complete := true }
+        if isBin s2.ftype then putRecord s2 s2.buf
+        else if s2.buf.isEmpty then s2
+        else putRecord s2 (s2.buf.length :: s2.buf)
+      else if drain then
+        match read s none with
+        | .ok (_, s2) => s2
+        | .error _ => s      -- the I/O error is swallowed or reported by the caller; the head position is then undefined
+      else s
+    { s1 with buf := [], isOpen := false, writing := false }
+
+def closeStream (fixed : Bool) (s : St) : St := closeStreamWith true fixed s
+
+/-- closing the BASIC file: `CASTextFile.close` writes NUL first when open for output -/
+def closeFileWith (drain fixed : Bool) (s : St) : St :=
+  if s.isOpen && s.writing && isText s.ftype then closeStreamWith drain fixed (write fixed s [0])
+  else closeStreamWith drain fixed s
+
+def closeFile (fixed : Bool) (s : St) : St := closeFileWith true fixed s
 
 /-- the scan of `open_read`: play until a record whose first block starts with 0xA5.
     Result: the header block, records passed (including the header), records left. -/
